@@ -29,11 +29,14 @@ pub struct SimTime {
     /// shifted by `wall_off_ns`, so that which source an object resolved is visible in what it reports
     pub rate: u64,
     pub wall_off_ns: i64,
+    /// every read of the monotonic clock advances the simulator's clock by this much afterwards
+    /// (a clock that never returns the same value twice)
+    pub tick_ns: u64,
 }
 
 impl SimTime {
     pub fn plain(wall_ns: Arc<AtomicI64>) -> SimTime {
-        SimTime { wall_ns, rate: 1, wall_off_ns: 0 }
+        SimTime { wall_ns, rate: 1, wall_off_ns: 0, tick_ns: 0 }
     }
 }
 
@@ -50,26 +53,32 @@ impl Time for SimTime {
         }
     }
     fn instant(&self) -> std::time::Instant {
-        if self.rate == 1 {
+        let t = if self.rate == 1 {
             detsim::time::Instant::peek().std()
         } else {
             detsim::time::Instant::from_sim_ns(detsim::time::Instant::peek().sim_ns() * self.rate).std()
+        };
+        if self.tick_ns > 0 {
+            detsim::advance_clock(self.tick_ns);
         }
+        t
     }
 }
 
 #[derive(Clone, Debug)]
 pub enum TK {
-    GuardStart { obj: u64, clock: u64 },
-    GuardEnd { obj: u64, how: String, clock: u64, returned: Option<u64>, rate: u64 },
+    /// `lo` / `hi`: the simulator clock before / after the call (any clock read the call makes lies between)
+    GuardStart { obj: u64, lo: u64, hi: u64 },
+    GuardEnd { obj: u64, how: String, lo: u64, hi: u64, returned: Option<u64>, rate: u64 },
     Clear,
     Check { reported: Option<u64>, in_phase: bool },
-    TimerNew { obj: u64, clock: u64 },
-    TimerStop { obj: u64, clock: u64, returned: u64, rate: u64 },
-    TimerClose { obj: u64, clock: u64, reported: u64, rate: u64 },
+    TimerNew { obj: u64, lo: u64, hi: u64 },
+    TimerStop { obj: u64, lo: u64, hi: u64, returned: u64, rate: u64 },
+    TimerClose { obj: u64, lo: u64, hi: u64, reported: u64, rate: u64 },
     Stamp { kind: String, unit: String, wall_ns: i64, text: String },
     PhaseBegin,
     PhaseEnd,
+    DoubleInstall { panicked: bool },
 }
 
 #[derive(Clone, Debug)]
@@ -104,8 +113,16 @@ impl ValueWriter for StrCapture<'_> {
     }
 }
 
+/// Drop `g` as a local of a scope that unwinds (`std::thread::panicking()` is true in its Drop).
+fn drop_unwinding<G>(g: G) {
+    let _ = std::panic::catch_unwind(std::panic::AssertUnwindSafe(move || {
+        let _local = g;
+        std::panic::resume_unwind(Box::new("harness: unwinding through the scope that owns the guard"));
+    }));
+}
+
 fn end_owned(log: &TLog, obj: u64, g: OwnedTimerGuard, how: &str, rate: u64) {
-    let clock = detsim::run_clock_ns();
+    let lo = detsim::run_clock_ns();
     let returned = match how {
         "stop" => Some(g.stop().as_nanos() as u64),
         "discard" => {
@@ -116,12 +133,16 @@ fn end_owned(log: &TLog, obj: u64, g: OwnedTimerGuard, how: &str, rate: u64) {
             g.overwrite();
             None
         }
+        "unwind" => {
+            drop_unwinding(g);
+            None
+        }
         _ => {
             drop(g);
             None
         }
     };
-    log.log(TK::GuardEnd { obj, how: how.to_string(), clock, returned, rate });
+    log.log(TK::GuardEnd { obj, how: how.to_string(), lo, hi: detsim::run_clock_ns(), returned, rate });
 }
 
 /// Everything one run's operation interpreter needs; `exec` is recursive for scoped time sources.
@@ -212,6 +233,17 @@ impl Ctx {
                 self.rt_guard = None;
                 self.rt_src = None;
             }
+            "rt_set_again" => {
+                // a second install on a runtime that already has a source is documented to panic;
+                // the source that is installed must stay in effect
+                if let (Some(rt), Some(_)) = (&self.rt, &self.rt_guard) {
+                    let i = ju(op, "src", 0) as usize % self.sources.len();
+                    let handle = rt.handle().clone();
+                    let src = self.sources[i].clone();
+                    let r = std::panic::catch_unwind(std::panic::AssertUnwindSafe(move || metrique_timesource::tokio::set_time_source_for_runtime(&handle, src)));
+                    self.log.log(TK::DoubleInstall { panicked: r.is_err() });
+                }
+            }
             _ => {
                 // everything else runs inside the runtime context if one is entered
                 let rt_handle = if self.in_rt { self.rt.as_ref().map(|r| r.handle().clone()) } else { None };
@@ -229,10 +261,12 @@ impl Ctx {
             "borrowed" => {
                 let obj = self.next_obj;
                 self.next_obj += 1;
+                let rate = self.sw_rate;
+                let lo0 = detsim::run_clock_ns();
                 let g = self.sw().start();
-                log.log(TK::GuardStart { obj, clock: detsim::run_clock_ns() });
+                log.log(TK::GuardStart { obj, lo: lo0, hi: detsim::run_clock_ns() });
                 detsim::advance_clock(ju(op, "ns", 0));
-                let clock = detsim::run_clock_ns();
+                let lo = detsim::run_clock_ns();
                 let how = js(op, "end", "drop");
                 let returned = match how {
                     "stop" => Some(g.stop().as_nanos() as u64),
@@ -244,17 +278,22 @@ impl Ctx {
                         g.overwrite();
                         None
                     }
+                    "unwind" => {
+                        drop_unwinding(g);
+                        None
+                    }
                     _ => {
                         drop(g);
                         None
                     }
                 };
-                log.log(TK::GuardEnd { obj, how: how.to_string(), clock, returned, rate: self.sw_rate });
+                log.log(TK::GuardEnd { obj, how: how.to_string(), lo, hi: detsim::run_clock_ns(), returned, rate });
             }
             "owned_start" => {
                 let obj = ju(op, "obj", 0);
+                let lo = detsim::run_clock_ns();
                 let g = self.sw().start_owned();
-                log.log(TK::GuardStart { obj, clock: detsim::run_clock_ns() });
+                log.log(TK::GuardStart { obj, lo, hi: detsim::run_clock_ns() });
                 self.owned.insert(obj, g);
             }
             "owned_end" => {
@@ -289,13 +328,14 @@ impl Ctx {
                 if jb(op, "main_borrowed", false) {
                     let obj = self.next_obj;
                     self.next_obj += 1;
+                    let lo0 = detsim::run_clock_ns();
                     let g = self.sw().start();
-                    log.log(TK::GuardStart { obj, clock: detsim::run_clock_ns() });
+                    log.log(TK::GuardStart { obj, lo: lo0, hi: detsim::run_clock_ns() });
                     detsim::yield_point();
                     detsim::advance_clock(ju(op, "ns", 0));
-                    let clock = detsim::run_clock_ns();
+                    let lo = detsim::run_clock_ns();
                     drop(g);
-                    log.log(TK::GuardEnd { obj, how: "drop".into(), clock, returned: None, rate });
+                    log.log(TK::GuardEnd { obj, how: "drop".into(), lo, hi: detsim::run_clock_ns(), returned: None, rate });
                 }
                 for h in hs {
                     let _ = h.join();
@@ -312,6 +352,7 @@ impl Ctx {
             }
             "timer_new" => {
                 let obj = ju(op, "obj", 0);
+                let lo = detsim::run_clock_ns();
                 let (t, src) = match op.get("explicit_src").and_then(|x| x.as_u64()) {
                     Some(i) => {
                         let i = i as usize % self.sources.len();
@@ -319,23 +360,23 @@ impl Ctx {
                     }
                     None => (Timer::start_now(), self.current().unwrap_or(0)),
                 };
-                log.log(TK::TimerNew { obj, clock: detsim::run_clock_ns() });
+                log.log(TK::TimerNew { obj, lo, hi: detsim::run_clock_ns() });
                 self.timers.insert(obj, (t, SOURCES[src].0));
             }
             "timer_stop" => {
                 let obj = ju(op, "obj", 0);
                 if let Some((t, rate)) = self.timers.get_mut(&obj) {
-                    let clock = detsim::run_clock_ns();
+                    let lo = detsim::run_clock_ns();
                     let r = t.stop().as_nanos() as u64;
-                    log.log(TK::TimerStop { obj, clock, returned: r, rate: *rate });
+                    log.log(TK::TimerStop { obj, lo, hi: detsim::run_clock_ns(), returned: r, rate: *rate });
                 }
             }
             "timer_close" => {
                 let obj = ju(op, "obj", 0);
                 if let Some((t, rate)) = self.timers.remove(&obj) {
-                    let clock = detsim::run_clock_ns();
+                    let lo = detsim::run_clock_ns();
                     let r = if jb(op, "by_ref", false) { (&t).close() } else { t.close() };
-                    log.log(TK::TimerClose { obj, clock, reported: r.as_nanos() as u64, rate });
+                    log.log(TK::TimerClose { obj, lo, hi: detsim::run_clock_ns(), reported: r.as_nanos() as u64, rate });
                 }
             }
             "wall" => self.wall.store(ji(op, "ns", 0), Ordering::SeqCst),
@@ -383,7 +424,8 @@ impl Ctx {
 
 fn time_main(plan: &Value, log: TLog) {
     let wall = Arc::new(AtomicI64::new(1_700_000_000_000_000_000));
-    let sources: Vec<TimeSource> = SOURCES.iter().map(|(rate, off)| TimeSource::custom(SimTime { wall_ns: wall.clone(), rate: *rate, wall_off_ns: *off })).collect();
+    let tick = ju(plan, "tick_ns", 0);
+    let sources: Vec<TimeSource> = SOURCES.iter().map(|(rate, off)| TimeSource::custom(SimTime { wall_ns: wall.clone(), rate: *rate, wall_off_ns: *off, tick_ns: tick })).collect();
     let mut ctx = Ctx {
         log: log.clone(),
         wall,
@@ -427,25 +469,35 @@ fn time_main(plan: &Value, log: TLog) {
 }
 
 pub fn check_c18(h: &[TEv]) -> Option<Violation> {
-    let mut total: Option<u64> = None;
-    let mut starts: BTreeMap<u64, u64> = BTreeMap::new();
-    let mut timers: BTreeMap<u64, (u64, Option<u64>)> = BTreeMap::new();
+    // Every quantity is a window [lo, hi]: a call may read the clock anywhere between the
+    // simulator clock before it and after it. With a clock that does not tick on reads (most
+    // runs) lo == hi and the check is exact to the nanosecond.
+    let mut total: Option<(u64, u64)> = None;
+    let mut starts: BTreeMap<u64, (u64, u64)> = BTreeMap::new();
+    // timer -> ((creation lo, hi), first stop value)
+    let mut timers: BTreeMap<u64, ((u64, u64), Option<u64>)> = BTreeMap::new();
     let mut in_phase = false;
     for e in h {
         match &e.k {
-            TK::GuardStart { obj, clock } => {
-                starts.insert(*obj, *clock);
+            TK::GuardStart { obj, lo, hi } => {
+                starts.insert(*obj, (*lo, *hi));
             }
-            TK::GuardEnd { obj, how, clock, returned, rate } => {
-                let span = clock.saturating_sub(starts.get(obj).copied().unwrap_or(*clock)) * rate;
+            TK::GuardEnd { obj, how, lo, hi, returned, rate } => {
+                let (slo, shi) = starts.get(obj).copied().unwrap_or((*lo, *hi));
+                let mut span = (lo.saturating_sub(shi) * rate, hi.saturating_sub(slo) * rate);
+                if let Some(r) = returned {
+                    if *r < span.0 || *r > span.1 {
+                        return Some(Violation::new("stop_returned_wrong_span", format!("guard {obj}: stop() returned {r} ns, the guard lived for {}..={} ns of the injected clock", span.0, span.1)));
+                    }
+                    // what stop() returned is what the stopwatch must have recorded
+                    span = (*r, *r);
+                }
                 match how.as_str() {
                     "discard" => {}
                     "overwrite" => total = Some(span),
-                    _ => total = Some(total.unwrap_or(0) + span),
-                }
-                if let Some(r) = returned {
-                    if *r != span {
-                        return Some(Violation::new("stop_returned_wrong_span", format!("guard {obj}: stop() returned {r} ns, the guard lived for {span} ns of the injected clock")));
+                    _ => {
+                        let t = total.unwrap_or((0, 0));
+                        total = Some((t.0 + span.0, t.1 + span.1));
                     }
                 }
             }
@@ -453,30 +505,52 @@ pub fn check_c18(h: &[TEv]) -> Option<Violation> {
             TK::PhaseBegin => in_phase = true,
             TK::PhaseEnd => in_phase = false,
             TK::Check { reported, .. } => {
-                if !in_phase && *reported != total {
+                let ok = match (reported, total) {
+                    (None, None) => true,
+                    (Some(r), Some((lo, hi))) => lo <= *r && *r <= hi,
+                    _ => false,
+                };
+                if !in_phase && !ok {
                     return Some(Violation::new(
                         "stopwatch_total_wrong",
-                        format!("the stopwatch reports {reported:?} ns; the completed, non-discarded guard spans since the last clear/overwrite total {total:?} ns"),
+                        format!("the stopwatch reports {reported:?} ns; the completed, non-discarded guard spans since the last clear/overwrite total {}", match total { None => "nothing (None)".to_string(), Some((lo, hi)) if lo == hi => format!("Some({lo}) ns"), Some((lo, hi)) => format!("{lo}..={hi} ns") }),
                     ));
                 }
             }
-            TK::TimerNew { obj, clock } => {
-                timers.insert(*obj, (*clock, None));
+            TK::DoubleInstall { panicked } => {
+                if !*panicked {
+                    return Some(Violation::new("double_install_accepted", "installing a second time source on a runtime that already has one did not panic"));
+                }
             }
-            TK::TimerStop { obj, clock, returned, rate } => {
-                if let Some((c0, first)) = timers.get_mut(obj) {
-                    let want = first.unwrap_or((clock - *c0) * rate);
-                    *first = Some(want);
-                    if *returned != want {
-                        return Some(Violation::new("timer_stop_wrong", format!("timer {obj}: stop() returned {returned} ns, creation to first stop is {want} ns")));
+            TK::TimerNew { obj, lo, hi } => {
+                timers.insert(*obj, ((*lo, *hi), None));
+            }
+            TK::TimerStop { obj, lo, hi, returned, rate } => {
+                if let Some(((clo, chi), first)) = timers.get_mut(obj) {
+                    match first {
+                        Some(f) => {
+                            if *returned != *f {
+                                return Some(Violation::new("timer_stop_wrong", format!("timer {obj}: a repeated stop() returned {returned} ns, the first stop returned {f} ns")));
+                            }
+                        }
+                        None => {
+                            let (wlo, whi) = (lo.saturating_sub(*chi) * rate, hi.saturating_sub(*clo) * rate);
+                            if *returned < wlo || *returned > whi {
+                                return Some(Violation::new("timer_stop_wrong", format!("timer {obj}: stop() returned {returned} ns, creation to first stop is {wlo}..={whi} ns")));
+                            }
+                            *first = Some(*returned);
+                        }
                     }
                 }
             }
-            TK::TimerClose { obj, clock, reported, rate } => {
-                if let Some((c0, first)) = timers.get(obj) {
-                    let want = first.unwrap_or((clock - *c0) * rate);
-                    if *reported != want {
-                        return Some(Violation::new("timer_close_wrong", format!("timer {obj}: closed value {reported} ns, expected {want} ns (creation to first stop, or to close)")));
+            TK::TimerClose { obj, lo, hi, reported, rate } => {
+                if let Some(((clo, chi), first)) = timers.get(obj) {
+                    let (wlo, whi) = match first {
+                        Some(f) => (*f, *f),
+                        None => (lo.saturating_sub(*chi) * rate, hi.saturating_sub(*clo) * rate),
+                    };
+                    if *reported < wlo || *reported > whi {
+                        return Some(Violation::new("timer_close_wrong", format!("timer {obj}: closed value {reported} ns, expected {wlo}..={whi} ns (creation to first stop, or to close)")));
                     }
                 }
             }
@@ -545,7 +619,7 @@ impl Gen18 {
     /// operations that read the ambient time source or the stopwatch
     fn timed(&mut self, rng: &mut Rng, ops: &mut Vec<Value>, allow_phase: bool) {
         match rng.below(12) {
-            0 | 1 | 2 => ops.push(json!({"op":"borrowed","ns":adv18(rng),"end": *rng.pick(&["stop", "drop", "drop", "discard", "overwrite"])})),
+            0 | 1 | 2 => ops.push(json!({"op":"borrowed","ns":adv18(rng),"end": *rng.pick(&["stop", "stop", "drop", "drop", "discard", "overwrite", "unwind"])})),
             3 | 4 => {
                 self.next += 1;
                 self.live.push(self.next);
@@ -555,7 +629,7 @@ impl Gen18 {
                 if !self.live.is_empty() {
                     let i = rng.usize_below(self.live.len());
                     let obj = self.live.remove(i);
-                    ops.push(json!({"op":"owned_end","obj":obj,"end": *rng.pick(&["stop", "drop", "discard", "overwrite"])}));
+                    ops.push(json!({"op":"owned_end","obj":obj,"end": *rng.pick(&["stop", "drop", "discard", "overwrite", "unwind"])}));
                 }
             }
             6 => {
@@ -567,7 +641,7 @@ impl Gen18 {
                     for _ in 0..take {
                         let i = rng.usize_below(self.live.len());
                         let obj = self.live.remove(i);
-                        threads[rng.usize_below(nt as usize)].push(json!({"obj":obj,"end": *rng.pick(&["stop", "drop", "drop", "discard"]),"adv":adv18(rng)}));
+                        threads[rng.usize_below(nt as usize)].push(json!({"obj":obj,"end": *rng.pick(&["stop", "drop", "drop", "discard", "unwind"]),"adv":adv18(rng)}));
                     }
                     ops.push(json!({"op":"phase","threads":threads,"main_borrowed":rng.chance(0.5),"ns":adv18(rng)}));
                 }
@@ -609,7 +683,7 @@ impl Gen18 {
 
     /// operations that change which time source is ambient
     fn ts_op(&mut self, rng: &mut Rng, ops: &mut Vec<Value>) {
-        match rng.below(7) {
+        match rng.below(8) {
             0 | 1 => {
                 let src = rng.below(4);
                 self.ts.tl.push(src);
@@ -649,6 +723,11 @@ impl Gen18 {
                     let src = rng.below(4);
                     self.ts.rt_src = Some(src);
                     ops.push(json!({"op":"rt_set","src":src}));
+                }
+            }
+            6 => {
+                if self.ts.rt_src.is_some() {
+                    ops.push(json!({"op":"rt_set_again","src":rng.below(4)}));
                 }
             }
             _ => {
@@ -711,7 +790,9 @@ pub fn gen_c18(rng: &mut Rng, tier: Tier) -> Value {
         }
     }
     let sched = gen_sched(rng, &SchedOpts { est_choices: 80, threads: 3, jump_max_ns: 0, stall_clock_max_ns: 0, max_steps: 30_000 });
-    json!({"sched": sched, "pre": pre, "ops": ops, "explicit_timesource": rng.chance(0.4), "explicit_src": rng.below(4)})
+    // a fifth of the runs: a clock that never returns the same value twice
+    let tick = if rng.chance(0.2) { *rng.pick(&[1u64, 7, 1000]) } else { 0 };
+    json!({"sched": sched, "pre": pre, "ops": ops, "explicit_timesource": rng.chance(0.4), "explicit_src": rng.below(4), "tick_ns": tick})
 }
 
 pub struct Timers;
@@ -763,6 +844,14 @@ impl Scenario for Timers {
                 _ => {}
             }
         }
+        if ju(plan, "tick_ns", 0) > 0 {
+            r.probe("ticking_clock", 1);
+        }
+        if h.iter().any(|e| matches!(e.k, TK::DoubleInstall { .. })) {
+            r.probe("runtime_double_install", 1);
+        }
+        let unwinds = h.iter().filter(|e| matches!(&e.k, TK::GuardEnd { how, .. } if how == "unwind")).count() as u64;
+        r.fault("drop_during_unwind", unwinds);
         let ptxt = plan.get("ops").map(|o| o.to_string()).unwrap_or_default();
         if ptxt.contains("\"ts_pop\"") {
             r.probe("nested_thread_local_source_ended", 1);
@@ -793,7 +882,7 @@ impl Scenario for Timers {
         r
     }
     fn probes(&self) -> Vec<&'static str> {
-        vec!["guard_stop", "guard_drop", "guard_discard", "guard_overwrite", "concurrent_owned_phase", "timestamps", "wall_clock_before_epoch", "nested_thread_local_source_ended", "runtime_level_source_in_effect", "scoped_source"]
+        vec!["guard_stop", "guard_drop", "guard_discard", "guard_overwrite", "guard_unwind", "ticking_clock", "runtime_double_install", "concurrent_owned_phase", "timestamps", "wall_clock_before_epoch", "nested_thread_local_source_ended", "runtime_level_source_in_effect", "scoped_source"]
     }
     fn components(&self) -> Value {
         json!({"real": ["Stopwatch / TimerGuard / OwnedTimerGuard / MaybeGuardedDuration / SharedDuration", "Timer", "Timestamp / TimestampOnClose / TimestampValue / EpochSeconds / EpochMillis / EpochMicros", "metrique_timesource::{TimeSource::custom, set_time_source, time_source}"], "simulated_seams": ["Time (monotonic = simulator clock, wall = harness-controlled, steps backwards allowed)", "Arc/Mutex of the shared duration"], "harness": ["operation histories, 1-3 threads finishing owned guards"], "stub": []})
